@@ -364,9 +364,10 @@ class Xsd11Keyref(XsdKeyref):
 class IdentityCounter:
     elements: Optional[set[Any]]  # don't need to check, should be only etree elements anyway
 
-    __slots__ = ('elements', 'counter', 'identity', 'elem', 'enabled')
+    __slots__ = ('elements', 'counter', 'identity', 'elem', 'enabled', 'outer')
 
     def __init__(self, identity: XsdIdentity, elem: ElementType) -> None:
+        self.outer: Optional['IdentityCounter'] = None  # the enclosing scope of a recursive element
         self.counter: Counter[IdentityCounterType] = Counter[IdentityCounterType]()
         self.identity = identity
         self.elem = elem
@@ -377,6 +378,7 @@ class IdentityCounter:
         return "%s%r" % (self.__class__.__name__[:-7], self.counter)
 
     def reset(self, elem: ElementType) -> None:
+        self.outer = None
         self.counter.clear()
         self.elem = elem
         self.enabled = True
